@@ -103,11 +103,36 @@ def build(spec, out_dir):
         data['hierarchy_mapper'] = {
             lv: f'{lv}_readable' for lv in h[:max(1, len(h) - 1)]}
 
+    # optional: store a *reduced* taxonomy (same leaves, profiles, genes)
+    # - the reference "that never had that level" of C17
+    orig_model = model
+    red = spec.get('reduce')
+    if red:
+        m2 = model
+        if red.get('drop') is not None:
+            m2 = domains.model_drop_level(m2, h[red['drop']])
+        if red.get('flatten'):
+            for lv in list(m2['hierarchy'][:-1]):
+                m2 = domains.model_drop_level(m2, lv)
+        d2 = {'hierarchy': list(m2['hierarchy']),
+              'metadata': {'factory': 'verif-reduced'}}
+        for li, lv in enumerate(m2['hierarchy']):
+            names = list(m2['nodes'][lv])
+            names.sort(reverse=True)      # unlike what _drop_level produces
+            d2[lv] = {}
+            for nme in names:
+                kids = list(m2['children'][lv][nme])
+                kids.sort(reverse=True)
+                d2[lv][nme] = kids
+        data = d2
+        model = m2
+
     b = Built()
     b.spec = dict(spec)
     b.dir = out_dir
     b.tree_data = data
     b.model = model
+    b.orig_model = orig_model
 
     # ---- reference statistics ------------------------------------------
     n_ref = int(spec.get('n_ref_genes', 8))
@@ -211,7 +236,7 @@ def build(spec, out_dir):
     else:
         parents = [('None', None, None)]
         for lv in h[:-1]:
-            for node in model['nodes'][lv]:
+            for node in orig_model['nodes'][lv]:
                 parents.append((f'{lv}/{node}', lv, node))
         for pi, (key, lv, node) in enumerate(parents):
             k = 5 + (pi % 2)
@@ -228,6 +253,15 @@ def build(spec, out_dir):
                 genes = list(dict.fromkeys(genes + in_both[:6]))
             rnd.shuffle(genes)
             table[key] = genes
+    if spec.get('marker_union'):
+        union = set()
+        for k in table:
+            union |= set(table[k])
+        table = {'None': sorted(union)}
+    if spec.get('marker_prune'):
+        keep = {'None'} | {f'{lv}/{node}' for lv in model['hierarchy'][:-1]
+                           for node in model['nodes'][lv]}
+        table = {k: v for k, v in table.items() if k in keep}
     b.marker_table = table
     b.marker_path = out_dir / 'markers.json'
     with open(b.marker_path, 'w') as dst:
